@@ -156,6 +156,16 @@ IDENT_POSITIONS = ['permit(principal, action, resource) when { context.%s };', '
                    'permit(principal, action, resource is T in %s::"x");', 'permit(principal, action, resource) when { %s(1) };',
                    'permit(principal, action, resource) when { context.%s(1) };', 'permit(principal, action, resource) when { %s::f(1) };',
                    'permit(principal, action, resource) when { context has a.%s };', 'permit(principal, action, resource) when { %s };']
+# chained relations: the grammar allows ONE relational operator per level (Relation ::= Add [RELOP Add] | Add has .. | Add like .. | Add is ..)
+_REL1 = ['== 1', '!= 1', '< 1', '<= 1', '> 1', '>= 1', 'in resource', 'has k', 'has "k"', 'like "a*"', 'is User', 'is User in resource', 'is NS::T in [resource]']
+for _r1 in _REL1:
+    for _r2 in _REL1:
+        if _r1 in ('is User', 'is NS::T') and _r2.startswith('in '):
+            continue                        # `e is T in x` is one relation
+        REJECT.append('permit(principal, action, resource) when { principal %s %s };' % (_r1, _r2))
+        REJECT.append('permit(principal, action, resource) when { true && principal %s %s || false };' % (_r1, _r2))
+REJECT += ['permit(principal, action, resource) when { principal is User in resource == true };', 'permit(principal, action, resource) when { 1 + principal is User in resource in resource };',
+           'permit(principal, action, resource) when { if principal is User in resource has k then 1 else 2 };']
 for _k in RESERVED:
     for _t in IDENT_POSITIONS:
         _text = _t % _k
